@@ -34,6 +34,8 @@ def edges_for(scale, B, seed):
     lo = STARTS[seed % len(STARTS)]
     if scale == 'linear':
         return define_hist_bins(lo, lo + B, B)
+    if scale == 'linear-neg':
+        return define_hist_bins(-1.5, -1.5 + B, B)         # a bin set that starts below zero (signed frequencies are legal)
     return define_hist_bins(lo, lo * 2 ** B, B, scale='log')
 
 
@@ -72,7 +74,7 @@ def cases(tier, seed):
         yield ('big', scale, 9, 70000, 2, seed)          # beyond 2^16 samples
         yield ('range', scale, 6, 600, 2, seed)          # amplitudes spanning 8 orders of magnitude inside one IMF
     for B in range(1, b['max_bins'] + 1):
-        for scale in ('linear', 'log'):
+        for scale in ('linear', 'log') + (('linear-neg',) if B <= 2 else ()):
             nal = 3 * B + 5
             for (T, M) in shapes(b['max_cells'][B]):
                 for amp in (0, 1):
@@ -218,6 +220,18 @@ def check_case(case):
                 trans += 2
                 if d2.shape != exp2.shape or not np.array_equal(d2, exp2) or not np.array_equal(o2, exp1):
                     viols.append(('layout:%s' % lname, '%s: result depends on the memory layout of the inputs (%s)' % (describe(case), lname)))
+    # the documented default of `mode` is 'energy': omitting it is the same call
+    if not viols and sum(fi) % 4 == 0:
+        exp2, exp1 = brute(f, a, edges, 'energy')
+        try:
+            d0 = np.asarray(hilberthuang(f.copy(), a.copy(), edges.copy()))
+            o0 = np.asarray(hilberthuang_1d(f.copy(), a.copy(), edges.copy()))
+            s0 = hilberthuang(f.copy(), a.copy(), edges.copy(), return_sparse=True)
+            trans += 3
+            if not (np.array_equal(d0, exp2) and np.array_equal(o0, exp1) and np.array_equal(np.asarray(s0.toarray()), exp2)):
+                viols.append(('default-mode', '%s: with `mode` omitted the spectra are not the energy spectra (dense %s, 1d %s)' % (describe(case), d0.tolist(), o0.tolist())))
+        except Exception as e:
+            viols.append(('raise:default-mode:%s' % type(e).__name__, '%s with mode omitted raised %r' % (describe(case), e)))
     nontriv = bool(inrange.any() and (~inrange).any())
     cls = 'all-in' if inrange.all() else ('all-out' if not inrange.any() else 'mixed')
     return Outcome(cls=cls, transitions=trans, viols=viols, nontrivial=nontriv)
